@@ -156,6 +156,19 @@ func ruleBounds(p *Prog, l *Ledger, tier string) {
 			}
 		}
 	}
+	if tier == "thorough" {
+		nw, bw := 0, 0
+		for _, fn := range widerScope(p, l, rule) {
+			for _, s := range boundSites(fn) {
+				nw++
+				if ok, why := a.proveSite(fn, s); !ok {
+					bw++
+					l.Add(Ob{Rule: rule + ".wider-scope", Fn: FnName(fn), Key: l.Key(rule+".wider-scope", FnName(fn), s.kind, siteDesc(s)), Pos: p.Pos(s.ins.Pos()), Status: Info, Why: "outside the reader/writer closures: " + siteDesc(s) + ": " + why})
+				}
+			}
+		}
+		l.Note("E2 thorough: %d further index/slice sites outside the C08 scope, %d unproved (listed as info)", nw, bw)
+	}
 	l.Note("E2: %d constant indexes into fixed-size arrays not listed", trivial)
 	l.Min(rule, n, 150)
 }
